@@ -23,6 +23,7 @@ DevNone == {}
 DevBoundIndexSubs == {"BoundIndexSubs"}
 DevDropUnusedIndex == {"DropUnusedIndex"}
 DevDeepAstuple == {"DeepAstuple"}
+DevDropIndexUnusedAfterSubst == {"DropIndexUnusedAfterSubst"}
 NoTerms == {}
 
 \* ======================= pool universe =========================================
@@ -53,6 +54,15 @@ PoolMaps  == { << <<Leaf(s), Leaf("y")>>, <<Leaf(i), Val("3")>> >> : s \in LeafS
              { << <<Leaf("w"), Leaf("y")>> >> }
 PoolCtxs  == { Pool(Hole, ix) : ix \in IxUpTo(MaxIdx) } \cup
              { Pool(Node("g", <<a, Hole>>, <<>>), ix) : a \in Atoms, ix \in Ix1 }
+
+\* the interpreted head Z: summands Z(a, b) and g(x, Z(a, b)) in normal form, pools that contain 0
+PoolsZero == { <<"0">>, <<"1">>, <<"0", "1">>, <<"1", "2">>, <<"0", "0">> }
+ZAtoms == { Leaf(s) : s \in LeafS \cup IdxS } \cup { Val("1") }
+Z2 == { Node("Z", <<a, b>>, <<>>) : a \in ZAtoms, b \in ZAtoms }
+ZBodies == Z2 \cup { Node("g", <<Leaf("x"), z>>, <<>>) : z \in Z2 }
+PoolZInit == { Pool(b, ix) : b \in ZBodies, ix \in IxUpTo(MaxIdx) }
+PoolZPairs == { <<Leaf(s), r>> : s \in LeafS \cup IdxS, r \in { Val("0"), Leaf("y") } }
+PoolZMaps == { << <<Leaf(s), Val("0")>>, <<Leaf(i), Val("1")>> >> : s \in LeafS, i \in IdxS }
 
 \* a small configuration whose complete state graph is dumped and walked edge by edge
 GraphBodies == { Node("f", <<Leaf("x"), Leaf("i")>>, <<>>), Node("f", <<Leaf("i"), Leaf("j")>>, <<>>),
